@@ -19,6 +19,59 @@ def words(p):
     return 'array{%s}' % ', '.join('from_be_bytes:u32(unwrap(try_into(index($%s, Range::Range{%d, %d}))))' % (p, 4 * k, 4 * k + 4) for k in range(4))
 
 
+def ttable(expr, sbox, rots):
+    """decide a table-driven T / T' : returns (ok, explanation) or None when the expression is not of that form"""
+    import re
+    from ..rules_poly import parse, Undecided
+    try:
+        tree = parse(expr)
+    except Undecided:
+        return None
+    terms = []
+    def flat(t):
+        if t[1] is not None and t[0] == 'BitXor' and len(t[1]) == 2:
+            flat(t[1][0]); flat(t[1][1])
+        else:
+            terms.append(t)
+    flat(tree)
+    if len(terms) != 4:
+        return None
+    def L(b):
+        r = b
+        for k in rots:
+            r ^= ((b << k) | (b >> (32 - k))) & 0xffffffff
+        return r
+    POS = {'((Shr($val, 24) as u8) as usize)': 24, '((Shr($val, 16) as u8) as usize)': 16, '((Shr($val, 8) as u8) as usize)': 8, '(($val as u8) as usize)': 0}
+    seen = set()
+    for t in terms:
+        rot = 0
+        if t[1] is not None and t[0] in ('rotate_right', 'rotate_left') and len(t[1]) == 2 and t[1][1][1] is None and t[1][1][0].isdigit():
+            rot = int(t[1][1][0]) % 32
+            if t[0] == 'rotate_right':
+                rot = (32 - rot) % 32
+            t = t[1][0]
+        if t[1] is not None:
+            return None
+        m = re.match(r'^arr:0x([0-9a-f]+)((?:\[\d+\])?)\[(.*)\]$', t[0])
+        if not m or m.group(3) not in POS:
+            return None
+        v = int(m.group(1), 16)
+        off = int(m.group(2)[1:-1]) * 256 if m.group(2) else 0
+        sh = POS[m.group(3)]
+        if sh in seen:
+            return (False, 'byte at bit %d of the input is used twice' % sh)
+        seen.add(sh)
+        for b in range(256):
+            e = (v >> (32 * (off + b))) & 0xffffffff
+            got = ((e << rot) | (e >> (32 - rot))) & 0xffffffff if rot else e
+            want = L((sbox[b] << sh) & 0xffffffff)
+            if got != want:
+                return (False, 'table entry 0x%02x for the byte at bit %d gives 0x%08x, L(Sbox(b) << %d) is 0x%08x' % (b, sh, got, sh, want))
+    if seen != {24, 16, 8, 0}:
+        return (False, 'not every byte of the input is looked up')
+    return (True, 'table-driven form: all 4 x 256 looked-up values equal L(Sbox(b) << position)')
+
+
 def block_fn(cx, name, keyidx, what):
     F = cx.F
     fn = cx.fn('<impl Sm4Cipher>::' + name, 'I-SM4')
@@ -65,7 +118,15 @@ def run(cx):
         f = F.fns.get('gm_sm4::' + name) if name in ('el', 'el_prime') else cx.fn('gm_sm4::' + name, 'I-SM4')
         if f is not None:
             r = [x[1] for x in I.returns(f, F)]
-            cx.add('I-SM4', name, r == [want], '%s = %s' % (name, r), f.loc())
+            ok_ = r == [want]
+            how_ = ''
+            if not ok_ and name in ('t', 't_prime') and len(r) == 1:
+                # the table-driven form: T(x) = XOR over the four bytes of x of rot(TABLE[byte]) with constant tables; every
+                # table entry is compared with L(Sbox(b) << position) (exact evaluation of the constants)
+                tv = ttable(r[0], pa.sm4().sbox, (2, 10, 18, 24) if name == 't' else (13, 23))
+                if tv is not None:
+                    ok_, how_ = tv
+            cx.add('I-SM4', name, ok_, '%s = %s%s' % (name, [FR.short(x, 200) for x in r], (' — ' + how_) if how_ else ''), f.loc())
     f = cx.fn('gm_sm4::tau', 'I-SM4')
     if f is not None:
         st = [(a, I.shorten_vars(b)) for a, b in I.stores(f, F, 'buf')]
